@@ -397,15 +397,27 @@ func (c *Client) ReadDirContext(ctx context.Context, p string) ([]os.FileInfo, e
 		}
 		switch typ {
 		case sshFxpName:
-			sid, data := unmarshalUint32(data)
+			sid, data, err := unmarshalUint32Safe(data)
+			if err != nil {
+				return nil, err
+			}
 			if sid != id {
 				return nil, &unexpectedIDErr{id, sid}
 			}
-			count, data := unmarshalUint32(data)
+			count, data, err := unmarshalUint32Safe(data)
+			if err != nil {
+				return nil, err
+			}
 			for i := uint32(0); i < count; i++ {
 				var filename string
-				filename, data = unmarshalString(data)
-				_, data = unmarshalString(data) // discard longname
+				filename, data, err = unmarshalStringSafe(data)
+				if err != nil {
+					return nil, err
+				}
+				_, data, err = unmarshalStringSafe(data) // discard longname
+				if err != nil {
+					return nil, err
+				}
 				var attr *FileStat
 				attr, data, err = unmarshalAttrs(data)
 				if err != nil {
@@ -441,12 +453,7 @@ func (c *Client) opendir(ctx context.Context, path string) (string, error) {
 	}
 	switch typ {
 	case sshFxpHandle:
-		sid, data := unmarshalUint32(data)
-		if sid != id {
-			return "", &unexpectedIDErr{id, sid}
-		}
-		handle, _ := unmarshalString(data)
-		return handle, nil
+		return unmarshalHandle(id, data)
 	case sshFxpStatus:
 		return "", normaliseError(unmarshalStatus(id, data))
 	default:
@@ -477,11 +484,7 @@ func (c *Client) Lstat(p string) (os.FileInfo, error) {
 	}
 	switch typ {
 	case sshFxpAttrs:
-		sid, data := unmarshalUint32(data)
-		if sid != id {
-			return nil, &unexpectedIDErr{id, sid}
-		}
-		attr, _, err := unmarshalAttrs(data)
+		attr, err := unmarshalAttrsPacket(id, data)
 		if err != nil {
 			// avoid returning a valid value from fileInfoFromStats if err != nil.
 			return nil, err
@@ -506,16 +509,7 @@ func (c *Client) ReadLink(p string) (string, error) {
 	}
 	switch typ {
 	case sshFxpName:
-		sid, data := unmarshalUint32(data)
-		if sid != id {
-			return "", &unexpectedIDErr{id, sid}
-		}
-		count, data := unmarshalUint32(data)
-		if count != 1 {
-			return "", unexpectedCount(1, count)
-		}
-		filename, _ := unmarshalString(data) // ignore dummy attributes
-		return filename, nil
+		return unmarshalSingleName(id, data) // ignore dummy attributes
 	case sshFxpStatus:
 		return "", normaliseError(unmarshalStatus(id, data))
 	default:
@@ -677,11 +671,10 @@ func (c *Client) open(path string, pflags uint32) (*File, error) {
 	}
 	switch typ {
 	case sshFxpHandle:
-		sid, data := unmarshalUint32(data)
-		if sid != id {
-			return nil, &unexpectedIDErr{id, sid}
+		handle, err := unmarshalHandle(id, data)
+		if err != nil {
+			return nil, err
 		}
-		handle, _ := unmarshalString(data)
 		return &File{c: c, path: path, handle: handle}, nil
 	case sshFxpStatus:
 		return nil, normaliseError(unmarshalStatus(id, data))
@@ -721,12 +714,7 @@ func (c *Client) stat(path string) (*FileStat, error) {
 	}
 	switch typ {
 	case sshFxpAttrs:
-		sid, data := unmarshalUint32(data)
-		if sid != id {
-			return nil, &unexpectedIDErr{id, sid}
-		}
-		attr, _, err := unmarshalAttrs(data)
-		return attr, err
+		return unmarshalAttrsPacket(id, data)
 	case sshFxpStatus:
 		return nil, normaliseError(unmarshalStatus(id, data))
 	default:
@@ -745,12 +733,7 @@ func (c *Client) fstat(handle string) (*FileStat, error) {
 	}
 	switch typ {
 	case sshFxpAttrs:
-		sid, data := unmarshalUint32(data)
-		if sid != id {
-			return nil, &unexpectedIDErr{id, sid}
-		}
-		attr, _, err := unmarshalAttrs(data)
-		return attr, err
+		return unmarshalAttrsPacket(id, data)
 	case sshFxpStatus:
 		return nil, normaliseError(unmarshalStatus(id, data))
 	default:
@@ -942,16 +925,7 @@ func (c *Client) RealPath(path string) (string, error) {
 	}
 	switch typ {
 	case sshFxpName:
-		sid, data := unmarshalUint32(data)
-		if sid != id {
-			return "", &unexpectedIDErr{id, sid}
-		}
-		count, data := unmarshalUint32(data)
-		if count != 1 {
-			return "", unexpectedCount(1, count)
-		}
-		filename, _ := unmarshalString(data) // ignore attributes
-		return filename, nil
+		return unmarshalSingleName(id, data) // ignore attributes
 	case sshFxpStatus:
 		return "", normaliseError(unmarshalStatus(id, data))
 	default:
@@ -1146,16 +1120,19 @@ func (f *File) readChunkAt(ch chan result, b []byte, off int64) (n int, err erro
 
 		switch typ {
 		case sshFxpStatus:
-			return n, normaliseError(unmarshalStatus(id, data))
+			return n, readStatusError(id, data)
 
 		case sshFxpData:
-			sid, data := unmarshalUint32(data)
-			if id != sid {
-				return n, &unexpectedIDErr{id, sid}
+			data, err := unmarshalData(id, data)
+			if err != nil {
+				return n, err
+			}
+			if len(data) == 0 {
+				// no progress: treat an empty read like read(2) does, or we would ask forever.
+				return n, io.EOF
 			}
 
-			l, data := unmarshalUint32(data)
-			n += copy(b[n:], data[:l])
+			n += copy(b[n:], data)
 
 		default:
 			return n, unimplementedPacketErr(typ)
@@ -1294,16 +1271,13 @@ func (f *File) readAt(b []byte, off int64) (int, error) {
 				if err == nil {
 					switch s.typ {
 					case sshFxpStatus:
-						err = normaliseError(unmarshalStatus(packet.id, s.data))
+						err = readStatusError(packet.id, s.data)
 
 					case sshFxpData:
-						sid, data := unmarshalUint32(s.data)
-						if packet.id != sid {
-							err = &unexpectedIDErr{packet.id, sid}
-
-						} else {
-							l, data := unmarshalUint32(data)
-							n = copy(packet.b, data[:l])
+						var data []byte
+						data, err = unmarshalData(packet.id, s.data)
+						if err == nil {
+							n = copy(packet.b, data)
 
 							// For normal disk files, it is guaranteed that this will read
 							// the specified number of bytes, or up to end of file.
@@ -1526,18 +1500,20 @@ func (f *File) WriteTo(w io.Writer) (written int64, err error) {
 				if err == nil {
 					switch s.typ {
 					case sshFxpStatus:
-						err = normaliseError(unmarshalStatus(readWork.id, s.data))
+						err = readStatusError(readWork.id, s.data)
 
 					case sshFxpData:
-						sid, data := unmarshalUint32(s.data)
-						if readWork.id != sid {
-							err = &unexpectedIDErr{readWork.id, sid}
-
-						} else {
-							l, data := unmarshalUint32(data)
-							b = pool.Get()[:l]
-							n = copy(b, data[:l])
+						var data []byte
+						data, err = unmarshalData(readWork.id, s.data)
+						if err == nil {
+							b = pool.Get()
+							n = copy(b, data)
 							b = b[:n]
+
+							if n == 0 {
+								// no progress: treat an empty read like read(2) does, or we would ask forever.
+								err = io.EOF
+							}
 						}
 
 					default:
@@ -1655,8 +1631,11 @@ func (f *File) writeChunkAt(ch chan result, b []byte, off int64) (int, error) {
 
 	switch typ {
 	case sshFxpStatus:
-		id, _ := unmarshalUint32(data)
-		err := normaliseError(unmarshalStatus(id, data))
+		id, _, err := unmarshalUint32Safe(data)
+		if err != nil {
+			return 0, err
+		}
+		err = normaliseError(unmarshalStatus(id, data))
 		if err != nil {
 			return 0, err
 		}
@@ -2249,6 +2228,85 @@ func (f *File) Sync() error {
 	default:
 		return &unexpectedPacketErr{want: sshFxpStatus, got: typ}
 	}
+}
+
+// readStatusError decodes the SSH_FXP_STATUS packet a server sent in reply to an SSH_FXP_READ.
+// SSH_FX_OK is not a valid answer to a read; taking it for "no error" would make the read loops ask forever.
+func readStatusError(id uint32, data []byte) error {
+	err := normaliseError(unmarshalStatus(id, data))
+	if err == nil {
+		return &unexpectedPacketErr{want: sshFxpData, got: sshFxpStatus}
+	}
+	return err
+}
+
+// unmarshalHandle decodes the payload of an SSH_FXP_HANDLE packet.
+func unmarshalHandle(id uint32, data []byte) (string, error) {
+	sid, data, err := unmarshalUint32Safe(data)
+	if err != nil {
+		return "", err
+	}
+	if sid != id {
+		return "", &unexpectedIDErr{id, sid}
+	}
+	handle, _, err := unmarshalStringSafe(data)
+	return handle, err
+}
+
+// unmarshalAttrsPacket decodes the payload of an SSH_FXP_ATTRS packet.
+func unmarshalAttrsPacket(id uint32, data []byte) (*FileStat, error) {
+	sid, data, err := unmarshalUint32Safe(data)
+	if err != nil {
+		return nil, err
+	}
+	if sid != id {
+		return nil, &unexpectedIDErr{id, sid}
+	}
+	attr, _, err := unmarshalAttrs(data)
+	if err != nil {
+		return nil, err
+	}
+	return attr, nil
+}
+
+// unmarshalSingleName decodes the payload of an SSH_FXP_NAME packet that must hold exactly one name,
+// and returns that name.
+func unmarshalSingleName(id uint32, data []byte) (string, error) {
+	sid, data, err := unmarshalUint32Safe(data)
+	if err != nil {
+		return "", err
+	}
+	if sid != id {
+		return "", &unexpectedIDErr{id, sid}
+	}
+	count, data, err := unmarshalUint32Safe(data)
+	if err != nil {
+		return "", err
+	}
+	if count != 1 {
+		return "", unexpectedCount(1, count)
+	}
+	filename, _, err := unmarshalStringSafe(data)
+	return filename, err
+}
+
+// unmarshalData decodes the payload of an SSH_FXP_DATA packet, and returns the data it carries.
+func unmarshalData(id uint32, data []byte) ([]byte, error) {
+	sid, data, err := unmarshalUint32Safe(data)
+	if err != nil {
+		return nil, err
+	}
+	if sid != id {
+		return nil, &unexpectedIDErr{id, sid}
+	}
+	l, data, err := unmarshalUint32Safe(data)
+	if err != nil {
+		return nil, err
+	}
+	if uint64(l) > uint64(len(data)) {
+		return nil, errShortPacket
+	}
+	return data[:l], nil
 }
 
 // normaliseError normalises an error into a more standard form that can be
